@@ -497,6 +497,19 @@ func (ex *Exec) modTargets(ev *Eval, clauses []*Clause) []modTarget {
 						out = append(out, modTarget{heap: hn, sort: hs})
 					}
 				}
+			case strings.HasPrefix(item, "mapof(") && strings.HasSuffix(item, ")"):
+				// mapof(m): the entries of the map m
+				e, err := ParseExpr(item[len("mapof(") : len(item)-1])
+				if err != nil {
+					sfail("modifies %s: %v", item, err)
+				}
+				v := ev.typed(ev.eval(e))
+				if _, ok := under(v.Ty.Go).(*types.Map); !ok {
+					sfail("modifies %s: not a map", item)
+				}
+				dom, val, ds, vs, _ := ex.mapHeaps(v.Ty.Go)
+				r1, r2 := v.T, v.T
+				out = append(out, modTarget{heap: dom, sort: ds, ref: &r1}, modTarget{heap: val, sort: vs, ref: &r2})
 			case strings.HasSuffix(item, "[*]"):
 				e, err := ParseExpr(strings.TrimSuffix(item, "[*]"))
 				if err != nil {
